@@ -341,9 +341,15 @@ def volume_file_to_precomputed(volume_filename,
     except ValueError as exc:  # TODO use specific exception for invalid JSON
         logger.error("Invalid 'info' file: %s", exc)
         return 1
-    return nibabel_image_to_precomputed(img, precomputed_writer,
-                                        ignore_scaling, input_min, input_max,
-                                        load_full_volume, options)
+    ret = nibabel_image_to_precomputed(img, precomputed_writer,
+                                       ignore_scaling, input_min, input_max,
+                                       load_full_volume, options)
+    # A sharded accessor buffers its output: write it now rather than from the
+    # exit handler, whose errors are ignored by the interpreter (the command
+    # would report success without having written the shards).
+    if hasattr(accessor, "close"):
+        accessor.close()
+    return ret
 
 
 def volume_file_to_info(volume_filename, dest_url,
